@@ -43,6 +43,8 @@ REQUIRED = {
     "lattices_checked": 300,
     "numba_runs": 15,
     "tracker_kinds_seen": 4,
+    "runs_with_post_step_hook": 150,
+    "hook_kinds_seen": 2,
 }
 FIXED = ["euler", "runge-kutta", "implicit", "crank-nicolson", "adams-bashforth"]
 DTS = [0.1, 0.25, 1 / 3, 0.7, 1e-2, 0.3, 2.0**-3, 2.0**-6, 0.05]
@@ -103,7 +105,12 @@ def gen_run(rng, backend):
         u0 = u0 + 1j * np.round(rng.uniform(-1, 1, size=ncell), 3)
     ntr = int(rng.choice([0, 1, 2, 3, 4], p=[0.1, 0.3, 0.3, 0.2, 0.1]))
     trackers = [gen_interrupt(rng, dt, t0, T) for _ in range(ntr)]
-    return {"solver": solver, "backend": backend, "dt": dt, "t0": t0, "T": T, "whole": bool(whole), "N": N, "a": a,
+    # post-step hook of the equation: none, in place (documented pattern) or returning a new array
+    # (supported by the interpreted loop, which copies the result back; not generated for numba)
+    # (only the generic interpreted loop documents the copy-back; Adams-Bashforth and all compiled loops
+    # assume the documented in-place pattern - recorded in DESIGN.md as an observation, not judged)
+    hook = str(rng.choice(["none", "none", "inplace", "newarray" if backend == "numpy" and solver != "adams-bashforth" else "inplace"]))
+    return {"hook": hook, "solver": solver, "backend": backend, "dt": dt, "t0": t0, "T": T, "whole": bool(whole), "N": N, "a": a,
             "coeffs": coeffs, "autonomous": autonomous, "u0": u0, "trackers": trackers}
 
 
@@ -112,7 +119,7 @@ def execute(c, tracker_objs, t_end=None):
 
     from .c06 import implicit_maxerror
 
-    eq = probe.make_probe(c["a"], c["coeffs"])
+    eq = probe.make_probe(c["a"], c["coeffs"], hook=None if c.get("hook", "none") == "none" else c["hook"])
     grid = pde.UnitGrid([len(c["u0"])])
     state = pde.ScalarField(grid, c["u0"], dtype=complex if np.iscomplexobj(c["u0"]) else float, label="probe")
     state._data_full[0] = state._data_full[-1] = 4242.0  # ghost cells are part of the caller's object
@@ -175,6 +182,12 @@ def run_shard(spec: dict) -> ShardResult:
             res.count("numba_runs")
         steps = info1["solver"]["steps"]
         t_final = info1["controller"]["t_final"]
+        if c["hook"] != "none":
+            res.count("runs_with_post_step_hook")
+            res.seen("hook_kinds_seen", c["hook"])
+            calls = info1["solver"].get("post_step_data")
+            if calls is not None and int(round(float(calls))) != steps:
+                res.violation(f"post-step hook was called {calls} times in a run of {steps} steps", case)
         if not untouched:
             res.violation("the caller's initial state object was modified (or returned)", case)
         # ---- accounting --------------------------------------------------------------
